@@ -846,7 +846,8 @@ def run(tier):
            "rule": "stack: distinct operation histories by canonical hash (every history has a setup prefix or >= 1 operation "
                    "and is replayed under 2-4 harness configurations); object part: one case = one (method, operand tuple, "
                    "globals metatable); evaluations = list re-reads after single operations + 2 evaluations (API, Lua) per object case",
-           "exhaustive": "stack MC: every canonical configuration x every operation x every index in -5..5 within the bounds; "
+           "exhaustive": False,
+        "exhaustive_parts": "stack MC: every canonical configuration x every operation x every index in -5..5 within the bounds; "
                          "object part: every operand pair of the world for the binary methods (triples sampled in quick)",
            "known_findings_hit": sorted(verd.known_hit)}
     cov.update(ev)
